@@ -692,3 +692,35 @@ for _i, (_lvl, _offer) in enumerate(((2, "permessage-deflate"), (2, "permessage-
       defines=["NEG_LEVEL=%d" % _lvl, 'NEG_OFFER="%s"' % _offer],
       functions=["check_websocket_extensions", "fill_requested_extension", "write_to_response", "alloc_compression"],
       symbolic="(concrete offer per obligation: '%s', compression level %d)" % (_offer, _lvl), assumes=["realloc succeeds"], bounds="one extension offer", **_wu)
+
+# the routed-id formatting label (C06.*) lives in the routing scenarios
+for _o in OBLIGATIONS:
+    if _o["harness"] in ("harness/scn_route.c", "harness/scn_guard.c", "harness/scn_batch.c", "harness/scn_wsclose.c") and "C06" not in _o["props"]:
+        _o["props"].append("C06")
+
+# ------------------------------------------------------------------------------------------------ thorough tier: deeper bounds
+O(id="C16.match_functions_len4", props=["C16"], harness="harness/c16_match.c", entry="harness_match", tier="quick", reach=["long_path"], unwind=7, defines=["SL=4"],
+  functions=["the twelve match functions"], symbolic="path, operand and second operand: each 0..4 arbitrary non-NUL bytes",
+  stubs=["strlen/strcmp/strncmp/strstr/strcasecmp/strncasecmp/strcasestr: reference implementations (C locale)"], assumes=[], bounds="strings <= 4 bytes",
+  timeout={"quick": 900, "thorough": 3600}, flags=["--no-bounds-check"])
+O(id="C12.frame_rules_payload10", props=["C12", "C06"], entry="harness_frame_rules", tier="quick", defines=["MAXPAY=10"],
+  reach=["rsv", "big_control", "ping", "close_ok", "stray_continuation", "continuation", "text", "first_fragment"],
+  functions=["ws_handle_frame"], symbolic="as C12.frame_rules with payloads up to 10 bytes", assumes=["as C12.frame_rules"], bounds="payload <= 10 bytes or 126",
+  **dict(_ws, unwind=12, unwindset={"strlen.0": 24, "frame_rules.0": 12, "ws_writev.0": 16, "cjet_is_byte_sequence_valid.0": 12}, timeout={"quick": 900, "thorough": 3600}))
+O(id="C10.writev_step_3x3", props=["C10", "C11"], entry="harness_writev", tier="thorough", reach=["partial_then_queued", "refused", "hard_error"], defines=["L0=3", "L1=3"],
+  functions=["buffered_socket_writev", "copy_iovec_to_write_buffer", "copy_single_buffer", "send_buffer"],
+  symbolic="as C10.writev_step with chunks of up to 3 bytes and a 6 byte write buffer", assumes=["to_write <= W"], bounds="W=6, frame = 2 chunks of <=3 bytes",
+  **dict(_bs, unwind=10, config={"CONFIG_MAX_WRITE_BUFFER_SIZE": 6, "CONFIG_MAX_MESSAGE_SIZE": 4}, timeout={"quick": 900, "thorough": 3600}))
+O(id="C19.reassemble_20", props=["C19", "C06"], entry="harness_reassemble", tier="thorough", reach=["second_fragment_larger_than_doubled_buffer"],
+  functions=["reassemble"], unwind=6, unwindset={"verif_memcpy.0": 22, "write_int_to_array.0": 5, "reassemble.0": 5}, defines=["FMAX=20"],
+  symbolic="lengths of two fragments (1..20 bytes each)", assumes=["allocations succeed"], bounds="two fragments of <= 20 bytes (24 ran out of memory at 9.4 GB)", timeout={"quick": 900, "thorough": 3600}, **_c19)
+for _off in (0, 5):
+    O(id="C18.auto_aligned_len25_off%d" % _off, entry="harness_auto", tier="thorough", unwind=27, reach=["auto_word_path"], defines=["ALEN=25", "AOFF=%d" % _off],
+      symbolic="text bytes, length 0..25, is_complete; alignment %d" % _off, bounds="length <= 25 (two 64-bit words)", timeout={"quick": 900, "thorough": 3600},
+      **dict(_c18, functions=["cjet_is_word_sequence_valid_auto_alligned"]))
+O(id="C19.offer_bytes", props=["C19", "C06"], entry="harness_offer_bytes", tier="thorough", reach=[], unwind=12, defines=["OFFER_TAIL=3"],
+  unwindset={"strlen.0": 30, "memcmp.0": 30, "fill_requested_extension.0": 30, "fill_requested_extension.1": 30, "fill_requested_extension.2": 30,
+             "check_websocket_extensions.0": 30, "check_websocket_extensions.1": 30, "memcpy.0": 30, "harness_offer_bytes.0": 21, "harness_offer_bytes.1": 8, "harness_offer_bytes.2": 131},
+  functions=["check_websocket_extensions", "fill_requested_extension", "write_to_response"],
+  symbolic="0..3 arbitrary bytes after 'permessage-deflate;' in an exact-size, unterminated header value",
+  assumes=["realloc succeeds"], bounds="offer tail <= 3 bytes (6 bytes: no verdict in 600 s)", timeout={"quick": 900, "thorough": 3600}, **_wu)
